@@ -3,12 +3,20 @@
 // and "#ORACLE:<what>" when the returned set is not the set of minimal non-zero
 // non-negative solutions (checked by brute force, independent of the model).
 // input : p q box n0  a_11 .. a_pq  [ w x_1 .. x_w ]*n0          (see ocaml/c46_main.ml)
+//     or  M q n  t_1 .. t_q  b_11 .. b_nq     (unit level: is_minimum / order, with their own oracle)
 #include <symengine/symengine_exception.h>
 #include "common.h"
 #include <symengine/diophantine.h>
 #include <symengine/integer.h>
 #include <algorithm>
 using namespace SymEngine;
+
+// the two helpers of diophantine.cpp have external linkage but no declaration in the header
+namespace SymEngine
+{
+bool order(const DenseMatrix &t, const std::vector<DenseMatrix> &basis, unsigned k);
+bool is_minimum(const DenseMatrix &t, const std::vector<DenseMatrix> &basis, unsigned n);
+} // namespace SymEngine
 
 typedef std::vector<long long> vec;
 
@@ -58,9 +66,64 @@ static bool next(vec &x, const vec &hi)
     return false;
 }
 
+// M q n  t_1 .. t_q  b_11 .. b_nq : is_minimum(t, basis, n) and order(t, basis, k), k < n
+static std::string run_min(const std::vector<std::string> &t)
+{
+    size_t pos = 1;
+    auto rd = [&]() -> long long {
+        if (pos >= t.size())
+            throw std::runtime_error("short line");
+        return std::stoll(t[pos++]);
+    };
+    unsigned q = (unsigned)rd(), n = (unsigned)rd();
+    vec tv(q);
+    DenseMatrix T(1, q);
+    for (unsigned j = 0; j < q; j++) {
+        tv[j] = rd();
+        T.set(0, j, integer(tv[j]));
+    }
+    std::vector<DenseMatrix> basis;
+    std::vector<vec> bv(n, vec(q));
+    for (unsigned k = 0; k < n; k++) {
+        DenseMatrix b(1, q);
+        for (unsigned j = 0; j < q; j++) {
+            bv[k][j] = rd();
+            b.set(0, j, integer(bv[k][j]));
+        }
+        basis.push_back(b);
+    }
+    bool m = is_minimum(T, basis, n);
+    std::ostringstream o, oracle;
+    o << "m:" << (m ? 1 : 0) << ";o:";
+    bool any_below = false;
+    for (unsigned k = 0; k < n; k++) {
+        bool ok = order(T, basis, k);
+        o << (ok ? 1 : 0);
+        bool below = true, equal = true; // b_k <= t componentwise, b_k == t
+        for (unsigned j = 0; j < q; j++) {
+            if (bv[k][j] > tv[j])
+                below = false;
+            if (bv[k][j] != tv[j])
+                equal = false;
+        }
+        bool strictly = below && !equal;
+        any_below = any_below || strictly;
+        if (ok != strictly)
+            oracle << " order: order(t, basis, " << k << ") = " << ok << " but 'basis[k] strictly below t' is " << strictly << ";";
+    }
+    if (m == any_below)
+        oracle << " is_minimum: is_minimum = " << m << " but 'some basis element strictly below t' is " << any_below << ";";
+    std::string s = o.str();
+    if (!oracle.str().empty())
+        s += "\t#ORACLE:" + oracle.str();
+    return s;
+}
+
 static std::string run_case(const std::string &line)
 {
     std::vector<std::string> t = verif::split_ws(line);
+    if (!t.empty() && t[0] == "M")
+        return run_min(t);
     if (t.size() < 4)
         return "BADLINE";
     size_t pos = 0;
